@@ -332,7 +332,16 @@ def bounded(chk):
         for shp in ((4, k // 4), (2, 2, k // 4), (k // 16, 16), (2, k // 2)):
             items.append({"matrix": arr[: int(np.prod(shp))].reshape(shp + (2, 2)).tolist(), "float": fl, "alphas": [0.05, 0.2]})
     items.append({"matrix": [], "shape": [2, 0, 2, 2, 2], "float": False, "alphas": [0.05]})
-    chk.bounded["bound"] = f"all 2x2 matrices with cells in {vals} (int and float), as single matrices and stacked with leading shapes (K,), (0,), (4,K/4), (2,2,K/4), (K/16,16), (2,K/2), (2,0,2); alphas {alphas}; both metrics.* and ConfusionMatrix.*"
+    # machine arithmetic: large integer counts (int64 cubes / products wrap), fractional (normalised) float matrices
+    big = [0, 3, 2**21 + 1, 3_000_000, 2**31 + 5, 10**12]
+    bigm = [[[a, b], [c, d]] for a, b, c, d in itertools.product(big, repeat=4)]
+    for m in bigm[:: (7 if chk.tier == "quick" else 1)]:
+        items.append({"matrix": m, "float": False, "alphas": [0.05, 0.3]})
+    items.append({"matrix": bigm[::5], "float": False, "alphas": [0.05]})
+    frac = [0.0, 0.125, 0.3, 0.75]
+    for a, b, c, d in itertools.product(frac, repeat=4):
+        items.append({"matrix": [[a, b], [c, d]], "float": True, "alphas": [0.05]})
+    chk.bounded["bound"] = f"all 2x2 matrices with cells in {vals} (int and float), as single matrices and stacked with leading shapes (K,), (0,), (4,K/4), (2,2,K/4), (K/16,16), (2,K/2), (2,0,2); alphas {alphas}; both metrics.* and ConfusionMatrix.*; integer matrices with cells in {big} (int64 overflow of intermediate products) and float matrices with fractional cells {frac}"
     chk.bounded["rule"] = "enumerated; every matrix is a distinct case; non-trivial = not all-zero"
     chk.bounded["exhaustive"] = True
     run_bounded(chk, items, eval_items)
